@@ -230,11 +230,13 @@ func (am *AccountingManager) Stop() error {
 	if am.config.DrainOnShutdown {
 		am.drainAllSessions()
 	}
+	verifCrashPoint("drain_done")
 
 	// Persist pending records before shutdown
 	if err := am.persistPendingRecords(); err != nil {
 		am.logger.Warn("Failed to persist pending records", zap.Error(err))
 	}
+	verifCrashPoint("pending_persisted")
 
 	// Cancel context and wait for workers
 	am.cancel()
@@ -290,9 +292,11 @@ func (am *AccountingManager) StartSession(session *AccountingSession) error {
 			zap.Error(err),
 		)
 	}
+	verifCrashPoint("start_sent")
 
 	// Persist session for crash recovery
 	am.persistActiveSession(session)
+	verifCrashPoint("start_persisted")
 
 	am.logger.Info("Accounting started for session",
 		zap.String("session_id", session.SessionID),
@@ -318,6 +322,7 @@ func (am *AccountingManager) StopSession(sessionID string, terminateCause uint32
 
 	// Persist state before attempting stop
 	am.persistActiveSession(session)
+	verifCrashPoint("stop_persisted")
 
 	// Send Accounting-Stop
 	if err := am.sendAccountingStop(session, terminateCause); err != nil {
@@ -326,6 +331,7 @@ func (am *AccountingManager) StopSession(sessionID string, terminateCause uint32
 			zap.Error(err),
 		)
 	}
+	verifCrashPoint("stop_sent")
 
 	// Remove from active sessions
 	am.sessionsMu.Lock()
@@ -334,6 +340,7 @@ func (am *AccountingManager) StopSession(sessionID string, terminateCause uint32
 
 	// Remove persisted session
 	am.removePersistedSession(sessionID)
+	verifCrashPoint("stop_removed")
 
 	return nil
 }
@@ -493,6 +500,7 @@ func (am *AccountingManager) sendInterimUpdate(session *AccountingSession) {
 		session.LastOutputPkts = counters.OutputPackets
 	}
 	am.sessionsMu.Unlock()
+	verifCrashPoint("interim_sent")
 }
 
 // fetchCounters fetches counters for a session
@@ -576,6 +584,7 @@ func (am *AccountingManager) processPendingRecord(record *PendingAcctRecord) {
 	defer cancel()
 
 	err := am.client.SendAccounting(ctx, record.Request)
+	verifCrashPoint("pending_sent")
 	if err == nil {
 		// Success - remove from pending
 		am.pendingMu.Lock()
@@ -721,6 +730,7 @@ func (am *AccountingManager) sendAccountingStopSync(ctx context.Context, session
 		// Queue for persistence - will be recovered on next startup
 		am.queuePendingRecord(req)
 	}
+	verifCrashPoint("drain_sent")
 }
 
 // Persistence methods for crash recovery
@@ -837,9 +847,11 @@ func (am *AccountingManager) recoverOrphanedSessions() error {
 			am.queuePendingRecord(req)
 		}
 		cancel()
+		verifCrashPoint("recover_sent")
 
 		atomic.AddUint64(&am.orphanedRecovered, 1)
 		os.Remove(path)
+		verifCrashPoint("recover_removed")
 	}
 
 	// Recover pending records
@@ -870,6 +882,7 @@ func (am *AccountingManager) recoverOrphanedSessions() error {
 
 	am.logger.Info("Recovered pending accounting records", zap.Int("count", len(records)))
 	os.Remove(pendingPath)
+	verifCrashPoint("recover_pending_removed")
 
 	return nil
 }
